@@ -355,6 +355,10 @@ func body(w *runner.W) {
 						mo.Do(Case{Fam: "P2", Old: o, New: n, Patch: "plain"})
 					}
 				}
+				t4 := p4Trees()
+				for k := 0; k < len(t4)*len(t4); k += 7 {
+					mo.Do(Case{Fam: "P4", Old: t4[k/len(t4)], New: t4[k%len(t4)], Patch: "plain"})
+				}
 			}
 			mo.Done()
 		}
@@ -385,6 +389,26 @@ func body(w *runner.W) {
 		}
 		p2.Note("trees", len(trees))
 		p2.Done()
+	}
+
+	// ---------------- P4: kinds and renames over three names ----------------
+	// (quick: every 13th pair; thorough: all 46 656)
+	p4 := runner.NewSub(w, "P4-kinds-three-names", run)
+	if p4.Active() {
+		trees := p4Trees()
+		step := 1
+		if w.Quick() {
+			step = 13
+		}
+		pairs := 0
+		for k := 0; k < len(trees)*len(trees); k += step {
+			p4.Do(Case{Fam: "P4", Old: trees[k/len(trees)], New: trees[k%len(trees)], Patch: "plain"})
+			pairs++
+		}
+		p4.Note("trees", len(trees))
+		p4.Note("pairs", pairs)
+		p4.Note("stride", step)
+		p4.Done()
 	}
 
 	// ---------------- P3: block level slice, plain + optimized ----------------
